@@ -9,14 +9,13 @@ NAMES = ["flatten", "fold", "cfold", "collect", "expand", "expand_nc", "expand_p
 _REUSED = {}
 
 
-def drive_case(case, extra):
+def _rewrites(e, reused=True):
     import pymbolic.primitives as p
     from pymbolic.mapper.collector import TermCollector
     from pymbolic.mapper.constant_folder import (CommutativeConstantFoldingMapper,
                                                  ConstantFoldingMapper)
     from pymbolic.mapper.distributor import distribute
     from pymbolic.mapper.flattener import flatten
-    e = ser.from_json(case["e"])
     params = {p.Variable("p")}
     fns = [
         lambda: flatten(e),
@@ -26,12 +25,40 @@ def drive_case(case, extra):
         lambda: distribute(e),
         lambda: distribute(e, commutative=False),
         lambda: distribute(e, parameters=frozenset(params)),
-        # one long-lived mapper instance per worker process, reused over the stream of cases
-        lambda: _reused("cfold", CommutativeConstantFoldingMapper)(e),
-        lambda: _reused("dist", lambda: __import__("pymbolic.mapper.distributor", fromlist=["x"])
-                        .DistributeMapper(TermCollector(frozenset())))(e),
     ]
-    return {"id": case["id"], "e": case["e"], "out": [ser.obj_to_json(f) for f in fns]}
+    if reused:
+        fns += [
+            # one long-lived mapper instance per worker process, reused over the stream of cases
+            lambda: _reused("cfold", CommutativeConstantFoldingMapper)(e),
+            lambda: _reused("dist", lambda: __import__("pymbolic.mapper.distributor", fromlist=["x"])
+                            .DistributeMapper(TermCollector(frozenset())))(e),
+        ]
+    return [ser.obj_to_json(f) for f in fns]
+
+
+def drive_case(case, extra):
+    out = _rewrites(ser.from_json(case["e"]))
+    rec = {"id": case["id"], "e": case["e"], "out": out}
+    # object identity is part of the input: the same tree with every repeated subtree (leaves
+    # included) built as ONE shared object must be rewritten to the same results; where it is
+    # not, the shared-build results are recorded and judged as well
+    sh = _rewrites(ser.from_json_shared(case["e"]), reused=False)
+    diff = {NAMES[i]: sh[i] for i in range(len(sh)) if sh[i] != out[i]}
+    if diff:
+        rec["shared"] = diff
+    return rec
+
+
+def _with_shared(recs):
+    """One more record (id + "s") per case whose shared-object build was rewritten differently:
+    the differing results take the place of the distinct-build ones and are judged like them."""
+    extra = []
+    for r in recs:
+        sh = r.pop("shared", None)
+        if sh:
+            o = [sh.get(NAMES[i], r["out"][i]) for i in range(len(NAMES))]
+            extra.append({"id": f"{r['id']}s", "e": r["e"], "out": o, "sharedbuild": True})
+    return recs + extra
 
 
 def _reused(key, factory):
@@ -121,8 +148,9 @@ def run(tier, seed, out):
     for i, c in enumerate(cases):
         c["id"] = i
     kit.log(f"C11: TLC generated {len(cases)} trees ({gen.wall:.1f}s)")
-    recs = kit.drive("harness.c11", "drive_case", cases, None, chunk=200)
-    out.evaluations += len(NAMES) * len(recs)
+    recs = _with_shared(kit.drive("harness.c11", "drive_case", cases, None, chunk=200))
+    out.evaluations += (len(NAMES) + 7) * len(cases)
+    out.extra["shared_build_results_that_differ"] = sum(1 for r in recs if r.get("sharedbuild"))
 
     def corrupt(r):      # what flatten returned replaced by "result + 1"
         if r["out"][0].get("r") == "ok" and r["e"]["t"] == "Sum" and all(c["t"] == "Var" for c in r["e"]["c"]):
@@ -148,5 +176,7 @@ def run(tier, seed, out):
 def replay(path, out):
     wd = kit.fresh_workdir("C11")
     d = json.loads(open(path).read())
-    recs = kit.drive("harness.c11", "drive_case", [d["detail"]["case"]], None)
+    case = {k: d["detail"]["case"][k] for k in ("id", "e")}
+    case["id"] = str(case["id"]).rstrip("s")
+    recs = _with_shared(kit.drive("harness.c11", "drive_case", [case], None))
     judge(out, recs, wd)
